@@ -35,9 +35,12 @@ structure St where
   /-- `NonThreadedExecutor.rolledback` (oldest first): the node and the identity of the
   exception that was propagating when it was rolled back -/
   rolledback : List (Node × Nat) := []
-  /-- identity of the most recently raised exception object / number of exceptions so far -/
+  /-- identity of the exception that is propagating - or, when none is, of the one the running
+  formula received last from a callee (`sys.exc_info()[1]` as `CallStack.rollback` reads it) -/
   curExc : Nat := 0
-  /-- ghost: the call stack at the moment the most recent exception object was created -/
+  /-- number of exception objects created so far (the next one gets identity `excCount + 1`) -/
+  excCount : Nat := 0
+  /-- ghost: the call stack at the moment the exception object `curExc` was created -/
   excStack : List Node := []
   /-- `executor.excinfo` / `executor.errorstack` as `get_error()` / `get_traceback()` see them -/
   lastErr : Option Err := none
@@ -164,13 +167,26 @@ def St.noteRead (s : St) (byAttr : Bool) (r : RefId) : St :=
   else s
 
 /-- a new exception object is raised -/
-def St.newExc (s : St) : St := { s with curExc := s.curExc + 1, excStack := s.stack }
+def St.newExc (s : St) : St :=
+  { s with excCount := s.excCount + 1, curExc := s.excCount + 1, excStack := s.stack }
+
+/-- A call that returns normally leaves the caller's exception as it was: exceptions that were
+raised and handled inside the callee are gone with its frames, so if the caller is in an
+`except … : … raise` or a `finally:` block, the exception that propagates after the call is the
+one it was handling before it - not the last one the callee saw. -/
+def keepExc (s : St) (p : Res × St) : Res × St :=
+  match p.1 with
+  | .ok _ => (p.1, { p.2 with curExc := s.curExc, excStack := s.excStack })
+  | .err _ => p
 
 /-! ### the evaluator -/
 
 def runBody (env : Env) (ev : Node → St → Res × St) : Prog → St → Res × St
   | .ret v, s => (.ok v, s)
   | .raise e, s => (.err e, s.newExc)
+  -- the exception `s.curExc` propagates (again): the one just received from a failed call, or -
+  -- at the end of an `except … : … raise` / `finally:` block whose calls all returned - the one
+  -- that was being handled
   | .reraise e, s => (.err e, s)
   | .read a r k, s =>
     -- `get_attr` fails (`KeyError` → `AttributeError`) before anything is recorded when no
@@ -185,8 +201,8 @@ def evalNode (env : Env) (ef : Node → St → Res × St) (n : Node) (s : St) : 
   if env.cached n.1 then
     match lookup s.data n with
     | some v => (.ok v, s.hitEdge n)
-    | none => ef n s
-  else ef n s
+    | none => keepExc s (ef n s)
+  else keepExc s (ef n s)
 
 /-- `_eval_formula` with `d` = how many more frames `CallStack.append` accepts -/
 def runN (env : Env) : Nat → Node → St → Res × St
